@@ -94,7 +94,7 @@ def gen_task(rng, alphabet, nops, env, state):
                 code.append(op(k, o=a, v=rng.randrange(3), w=rng.randrange(1, 4)))
             else:
                 code.append(op(k, o=a, v=rng.randrange(1, 4), w=rng.choice([0, 1, 3]) if k == "store" else rng.choice([0, 1, 4])))
-        elif k in ("yield", "spin", "sleep", "park"):
+        elif k in ("yield", "spin", "sleep", "park", "rand"):
             code.append(op(k))
         elif k == "unpark":
             targets = state.get("unpark_targets", [])
@@ -154,6 +154,7 @@ def wrap_threads(rng, bodies, parent, join_prob=0.8):
 FAMILIES = {
     # name: (alphabet, objects)
     "kernel": (["load", "store", "fadd", "yield", "sleep", "spin"], dict(natom=2)),
+    "kernel_rand": (["load", "store", "fadd", "yield", "rand", "rand", "spin"], dict(natom=1)),
     "mutex": (["lock", "lock", "try_lock", "unlock", "ginc", "gget", "yield", "load", "store"], dict(nmutex=2, natom=1)),
     "atomic": (["load", "store", "fadd", "swap", "fsub", "fmax", "fmin", "cas"], dict(natom=2)),
     "rwlock": (["read", "write", "try_read", "try_write", "unlock", "ginc", "gget", "yield"], dict(nrw=1, natom=1)),
